@@ -3,6 +3,7 @@ package utils
 import (
 	"math"
 	"math/rand/v2"
+	"slices"
 	"time"
 
 	"github.com/rs/zerolog/log"
@@ -80,6 +81,11 @@ func (km *KMeans) Fit(X [][]float32) {
 			}
 		}
 		km.Centroids[i] = X[furthestId][km.Offset : km.Offset+km.VectorLen]
+	}
+	// The centroids are updated in place during the update stage, so they must
+	// not alias the input vectors they were picked from.
+	for i := range km.Centroids {
+		km.Centroids[i] = slices.Clone(km.Centroids[i])
 	}
 	logger.Debug().Dur("duration", time.Since(startTime)).Msg("initialising centroids")
 	// ---------------------------
